@@ -487,3 +487,100 @@ Definition show_fixed (m : Z) (k : nat) : text :=
   match k with O => [] | _ => 46%Z :: show_digits_pad k fp [] end.
 
 Close Scope Q_scope.
+
+(* ---------------------------------------------------------------- fixed-point printing is read back *)
+Lemma digits_val_app a b : forall acc,
+  digits_val acc (a ++ b) = match digits_val acc a with Some v => digits_val v b | None => None end.
+Proof.
+  induction a as [|c a IH]; intro acc; simpl; auto. destruct (is_digit c); auto.
+Qed.
+
+Lemma show_digits_pad_val k : forall n acc a0,
+  digits_val a0 (show_digits_pad k n acc) = digits_val (a0 * 10 ^ Z.of_nat k + n mod 10 ^ Z.of_nat k) acc.
+Proof.
+  induction k as [|k IH]; intros n acc a0.
+  - simpl. rewrite Z.mod_1_r. f_equal. lia.
+  - cbn [show_digits_pad]. rewrite IH. cbn [digits_val]. rewrite is_digit_of_mod. f_equal.
+    rewrite Nat2Z.inj_succ, Z.pow_succ_r by lia.
+    assert (P: 0 < 10 ^ Z.of_nat k) by (apply Z.pow_pos_nonneg; lia).
+    rewrite (Z.rem_mul_r n 10 (10 ^ Z.of_nat k)) by lia. ring.
+Qed.
+
+Lemma show_digits_pad_chars k : forall n acc,
+  forallb is_digit acc = true -> forallb is_digit (show_digits_pad k n acc) = true.
+Proof.
+  induction k as [|k IH]; intros n acc H; cbn [show_digits_pad]; auto.
+  apply IH. cbn [forallb]. rewrite is_digit_of_mod. exact H.
+Qed.
+Lemma show_digits_pad_length k : forall n acc, length (show_digits_pad k n acc) = (k + length acc)%nat.
+Proof.
+  induction k as [|k IH]; intros n acc; cbn [show_digits_pad]; auto. rewrite IH. simpl. lia.
+Qed.
+
+Open Scope Q_scope.
+Lemma pow10_neg k : pow10 (- Z.of_nat k) == 1 / inject_Z (10 ^ Z.of_nat k).
+Proof.
+  unfold pow10. destruct k as [|k].
+  - simpl. reflexivity.
+  - assert (E: (- Z.of_nat (S k) <? 0)%Z = true) by (apply Z.ltb_lt; lia). rewrite E.
+    rewrite Z.opp_involutive. reflexivity.
+Qed.
+
+(* the unsigned core: ip '.' k digits  reads back as  ip + fp / 10^k *)
+Lemma parse_udec_fixed ip fp k : (0 <= ip)%Z -> (k <> 0)%nat ->
+  exists q, parse_udec (show_nat ip ++ 46%Z :: show_digits_pad k fp []) = Some q /\
+            q == inject_Z (ip * 10 ^ Z.of_nat k + fp mod 10 ^ Z.of_nat k) / inject_Z (10 ^ Z.of_nat k).
+Proof.
+  intros Hip Hk.
+  pose proof (show_nat_digits ip) as D1. pose proof (show_digits_pad_chars k fp [] eq_refl) as D2.
+  assert (DL: forall s, forallb is_digit s = true -> map lower_e s = s).
+  { induction s as [|c s IH]; simpl; auto. intro H. apply andb_true_iff in H. destruct H as [H1 H2].
+    rewrite IH by auto. f_equal. unfold lower_e. destruct (Z.eqb_spec c 69); auto. subst. discriminate. }
+  assert (NI: forall c s, forallb is_digit s = true -> is_digit c = false -> ~ In c s).
+  { intros c s F P I. rewrite forallb_forall in F. apply F in I. congruence. }
+  unfold parse_udec. rewrite map_app. cbn [map]. rewrite (DL _ D1), (DL _ D2). change (lower_e 46) with 46%Z.
+  rewrite split_on_no_sep.
+  2:{ intro I. apply in_app_or in I. destruct I as [I|[I|I]]; [exact (NI 101%Z _ D1 eq_refl I)|discriminate|exact (NI 101%Z _ D2 eq_refl I)]. }
+  unfold parse_mantissa. rewrite split_on_app by (apply NI; [exact D1|reflexivity]).
+  rewrite split_on_no_sep by (apply NI; [exact D2|reflexivity]).
+  pose proof (show_nat_nonempty ip) as NE.
+  destruct (show_nat ip ++ show_digits_pad k fp []) as [|c0 r0] eqn:S.
+  { destruct (show_nat ip); [congruence|discriminate]. }
+  rewrite <- S. rewrite digits_val_app.
+  pose proof (parse_show_nat ip Hip) as P. unfold parse_nat in P. destruct (show_nat ip) as [|c r] eqn:S2; [congruence|].
+  rewrite P. rewrite show_digits_pad_val. cbn [digits_val option_map].
+  eexists. split; [reflexivity|]. rewrite Qred_correct.
+  unfold zlen. rewrite show_digits_pad_length. simpl length. rewrite Nat.add_0_r. rewrite pow10_neg.
+  field. assert (Pz: (0 < 10 ^ Z.of_nat k)%Z) by (apply Z.pow_pos_nonneg; lia).
+  intro E. assert (X: inject_Z 0 < inject_Z (10 ^ Z.of_nat k)) by (rewrite <- Zlt_Qlt; exact Pz).
+  rewrite E in X. apply (Qlt_irrefl _ X).
+Qed.
+
+(* float(show_fixed m k) denotes m / 10^k   (k >= 1) *)
+Theorem parse_dec_show_fixed m k : (k <> 0)%nat ->
+  exists q, parse_dec (show_fixed m k) = Some q /\ q == inject_Z m / inject_Z (10 ^ Z.of_nat k).
+Proof.
+  intro Hk. assert (Pz: (0 < 10 ^ Z.of_nat k)%Z) by (apply Z.pow_pos_nonneg; lia).
+  assert (NZ: ~ inject_Z (10 ^ Z.of_nat k) == 0).
+  { intro E. assert (X: inject_Z 0 < inject_Z (10 ^ Z.of_nat k)) by (rewrite <- Zlt_Qlt; exact Pz).
+    rewrite E in X. apply (Qlt_irrefl _ X). }
+  unfold show_fixed. destruct k as [|k']; [congruence|]. set (k := S k') in *.
+  assert (Hip: (0 <= Z.abs m / 10 ^ Z.of_nat k)%Z) by (apply Z.div_pos; lia).
+  destruct (parse_udec_fixed (Z.abs m / 10 ^ Z.of_nat k) (Z.abs m mod 10 ^ Z.of_nat k) k Hip Hk) as [q [P E]].
+  assert (V: (Z.abs m / 10 ^ Z.of_nat k * 10 ^ Z.of_nat k + (Z.abs m mod 10 ^ Z.of_nat k) mod 10 ^ Z.of_nat k = Z.abs m)%Z).
+  { rewrite Z.mod_mod by lia. pose proof (Z.div_mod (Z.abs m) (10 ^ Z.of_nat k) ltac:(lia)). lia. }
+  rewrite V in E.
+  destruct (Z.ltb_spec m 0) as [L|L].
+  - cbn [app parse_dec]. rewrite P. cbn [option_map]. eexists. split; [reflexivity|].
+    rewrite Qred_correct, E. rewrite Z.abs_neq by lia. rewrite inject_Z_opp. field. exact NZ.
+  - cbn [app]. pose proof (show_nat_first_digit (Z.abs m / 10 ^ Z.of_nat k)) as F.
+    destruct (show_nat (Z.abs m / 10 ^ Z.of_nat k)) as [|c r] eqn:S; [contradiction|].
+    cbn [app] in *.
+    assert (HD: parse_dec (c :: r ++ 46%Z :: show_digits_pad k (Z.abs m mod 10 ^ Z.of_nat k) []) =
+                parse_udec (c :: r ++ 46%Z :: show_digits_pad k (Z.abs m mod 10 ^ Z.of_nat k) [])).
+    { unfold is_digit in F. apply andb_true_iff in F. destruct F as [F1 F2].
+      apply Z.leb_le in F1. apply Z.leb_le in F2. unfold parse_dec.
+      destruct c as [|p|p]; try lia. do 6 (destruct p as [p|p|]; try lia; try reflexivity). }
+    rewrite HD, P. exists q. split; auto. rewrite E. rewrite Z.abs_eq by lia. reflexivity.
+Qed.
+Close Scope Q_scope.
